@@ -155,12 +155,47 @@ PermDomain(ref, in) ==
 IsPermOf(p, R) == Len(p) = R /\ {p[r] : r \in 1..R} = 0..(R - 1)
 
 \* ============================================================================ bounded domain of C04
+\* ---------------------------------------------------------------------------- sequences on one CPTensor object
+\* The state is an INTEGER representative of what the object holds: same represented tensor, same zero pattern of
+\* the columns (normalisation rescales columns, it never changes which ones are zero).
+CompZero(S, r) == (S.hasw /\ S.w[r] = 0) \/ \E k \in 1..Len(S.fs) : ColZero(S.fs[k], r - 1)
+StepN(S) ==      \* weights absorbed into the first factor; the weight of a zero component becomes 0, the others carry scale
+    [hasw |-> TRUE, w |-> [r \in 1..CPRank(S) |-> IF CompZero(S, r) THEN 0 ELSE 1],
+     fs |-> [k \in 1..Len(S.fs) |-> IF k = 1 THEN ScaleCols(S.fs[1], LAMBDA r : Wt(S, r)) ELSE S.fs[k]]]
+AMode(c) == (c.mode + 1) % Len(c.shape)          \* the factor replaced by an "A" step (never the one "M" acts on)
+StepOf(S, st, c, in) ==
+    CASE st = "N" -> StepN(S)
+      [] st = "M" -> [S EXCEPT !.fs[c.mode + 1] = MatMul(in.m, @)]
+      [] st = "A" -> [S EXCEPT !.fs[AMode(c) + 1] = in.g]
+      [] OTHER    -> S                                   \* "F": signs move between columns and weights only
+SeqStates(c, in) ==      \* SeqStates[i] = state after step i (0: the initial object)
+    LET ST[i \in 0..Len(c.steps)] == IF i = 0 THEN [hasw |-> in.hasw, w |-> in.w, fs |-> in.fs]
+                                     ELSE StepOf(ST[i - 1], c.steps[i], c, in)
+    IN  ST
+\* "M" may be applied more than once: the operand must fit the CURRENT size of its mode
+SeqOperandOK(c, in) ==
+    /\ in.m.shape[2] = c.shape[c.mode + 1]
+    /\ (Cardinality({i \in 1..Len(c.steps) : c.steps[i] = "M"}) > 1 => in.m.shape[1] = in.m.shape[2])
+    /\ in.g.shape = in.fs[AMode(c) + 1].shape
+
+\* ---------------------------------------------------------------------------- operand of another type than the decomposition
+\* omix: "int_float" = int64 factors (and weights / core), float64 operand with half-integer entries (numerators over 2);
+\*       "real_cplx" = float64 factors, complex128 operand (integer real and imaginary parts);
+\*       "f32_f64"   = float32 factors, float64 operand with half-integer entries.
+\* The mode product is linear in the operand: numerators give the numerator of the result, a complex operand
+\* a + ib gives ModeDot(a) + i ModeDot(b); the result comes back in NumPy's promoted type.
+OMixNames == <<"int_float", "real_cplx", "f32_f64">>
+OMixOut(c) == IF c.omix = "real_cplx" THEN "complex128" ELSE "float64"
+OMixDen(c) == IF c.omix \in {"int_float", "f32_f64"} THEN 2 ELSE 1
+
+SeqSet == {<<"N", "M", "N">>, <<"N", "A", "N">>, <<"N", "N">>, <<"F", "N">>, <<"N", "F", "N">>,
+           <<"M", "N", "A", "N">>, <<"N", "M", "M", "N">>, <<"A", "N", "F", "M", "N">>}
 TShapes == UNION {[1..n -> 1..TMaxDim] : n \in 2..TMaxOrder}
 TRankVecs(n) == {r \in [1..n -> 1..TMaxRank] : ProdSeq(r) <= TMaxCore}
 Modes0(s) == 0..(Len(s) - 1)
 BaseCfg == [op |-> "none", kind |-> "cp", shape |-> <<>>, rank |-> <<>>, family |-> "generic", how |-> "function",
             mode |-> 0, operand |-> "none", odim |-> 0, keep |-> FALSE, copy |-> FALSE, npad |-> 0, padb |-> FALSE,
-            lens |-> <<>>, maxrank |-> 0, thr |-> 0, listin |-> FALSE, mag |-> 0]
+            lens |-> <<>>, maxrank |-> 0, thr |-> 0, listin |-> FALSE, mag |-> 0, omix |-> "none", steps |-> <<>>]
 HasWideOther(s, m) == \E k \in 1..Len(s) : k # m + 1 /\ s[k] >= 2
 P2Cfgs(R) == {<<js, K>> : js \in {j \in [1..2 -> 1..3] : \A i \in 1..2 : j[i] >= R}, K \in 1..3}
 
@@ -191,6 +226,12 @@ TCfgs(root) ==
       [] root.op = "pad_ttm" ->
             {[BaseCfg EXCEPT !.op = "pad_tt_rank", !.kind = "ttm", !.shape = s, !.rank = <<1>> \o r \o <<1>>, !.npad = n] :
                  r \in [1..((N \div 2) - 1) -> 1..2], n \in 1..2}
+      [] root.op = "sequence" ->
+            \* SEQUENCES of transforms applied to ONE CPTensor object (each step judged by its own clause):
+            \*   "N" obj.normalize()                    "M" cp_mode_dot(obj, matrix, mode, copy=False)  (in place, same object)
+            \*   "A" obj.factors[amode] = new factor     "F" obj = cp_flip_sign(obj)
+            {[BaseCfg EXCEPT !.op = "sequence", !.shape = s, !.rank = <<r>>, !.family = f, !.mode = m, !.odim = 2, !.steps = st] :
+                 r \in 1..TMaxRank, f \in {"generic", "zerocol", "zerow", "negw"}, m \in Modes0(s), st \in SeqSet}
       [] root.op = "mode_dot" ->
             {[BaseCfg EXCEPT !.op = "cp_mode_dot", !.shape = s, !.rank = <<r>>, !.mode = m, !.operand = o[1], !.odim = o[2],
                              !.keep = o[3], !.copy = c, !.how = h] :
@@ -221,6 +262,7 @@ TCfgs(root) ==
                  r \in {root.rank}, x \in {y \in P2Cfgs(root.rank) : y[2] >= root.rank}, mr \in {0, root.rank, 3}, t \in {0, 1}}
 
 TRoots ==
+    {[op |-> "sequence", shape |-> s, rank |-> 0] : s \in {x \in TShapes : Size(x) <= TModeDotSize}} \cup
     {[op |-> o, shape |-> s, rank |-> 0] : o \in {"normalize", "cp_flip_sign", "cp_permute_factors", "pad_tt_rank"}, s \in TShapes}
     \cup {[op |-> "mode_dot", shape |-> s, rank |-> 0] : s \in {x \in TShapes : Size(x) <= TModeDotSize}}
     \cup {[op |-> "pad_ttm", shape |-> s, rank |-> 0] : s \in {x \in [1..4 -> 1..2] : TRUE} \cup [1..2 -> 1..2]}
@@ -277,7 +319,20 @@ TCfgOK(c) ==
     LET in == TGenIn(c, FALSE)  kd == c.kind IN
     /\ (kd # "slices" => Valid(kd, in))
     /\ (c.mag # 0 => MagMove(kd, in))
-    /\ CASE c.op = "svd_compress" ->
+    /\ CASE c.op = "sequence" ->
+              LET x  == in @@ [m |-> GenM(IF Cardinality({i \in 1..Len(c.steps) : c.steps[i] = "M"}) > 1 THEN c.shape[c.mode + 1] ELSE 2,
+                                            c.shape[c.mode + 1]),
+                               g |-> GenT(in.fs[AMode(c) + 1].shape, 5)]
+                  ST == SeqStates(c, x) IN
+              /\ SeqOperandOK(c, x)
+              \* normalising and sign flipping never change the represented tensor; "M" is the mode product, "A" a new factor
+              /\ \A i \in 1..Len(c.steps) :
+                    /\ ValidCP(ST[i])
+                    /\ (c.steps[i] \in {"N", "F"} => CPDense(ST[i]) = CPDense(ST[i - 1]))
+                    /\ (c.steps[i] = "M" => CPDense(ST[i]) = ModeDot(CPDense(ST[i - 1]), x.m, c.mode))
+                    \* a normalised state is a fixed point of the zero pattern: normalising again changes nothing
+                    /\ (c.steps[i] = "N" => StepN(ST[i]).w = ST[i].w /\ \A r \in 1..CPRank(ST[i]) : CompZero(ST[i], r) <=> CompZero(ST[i - 1], r))
+         [] c.op = "svd_compress" ->
               \* the slices have the promised shapes, and their rank bound fits under the number of kept singular triplets
               /\ KeepsAll(c)
               /\ \A i \in 1..Len(c.lens) : MatMul(in.fs[i], in.rs[i]).shape = <<c.lens[i], c.shape[2]>>
@@ -324,7 +379,7 @@ FamilyNames == <<"generic", "pyth", "zerocol", "zeromean", "negw", "zerow", "now
 HowNames    == <<"function", "method", "tuple", "object">>
 Checksum(c) == SumSeq(c.shape) * 7 + SumSeq(c.rank) * 3 + c.mode * 5 + c.odim + c.npad * 2
                + (IF c.keep THEN 1 ELSE 0) + (IF c.copy THEN 2 ELSE 0) + (IF c.padb THEN 3 ELSE 0)
-               + IdxIn(c.family, FamilyNames) + 4 * IdxIn(c.how, HowNames) + Len(c.shape)
+               + IdxIn(c.family, FamilyNames) + 4 * IdxIn(c.how, HowNames) + Len(c.shape) + Len(c.steps)
 Kept(c) == \/ Thin = 1
            \/ c.op \in {"cp_permute_factors", "svd_roundtrip", "cp_to_parafac2", "svd_compress"} \/ c.kind \in {"p2", "ttm"}
            \/ Checksum(c) % Thin = 0
@@ -344,11 +399,14 @@ InSvdDomain(c) == c.op = "svd_compress" =>
 TMags == <<-500, -70, -30, 40, 300>>
 MagOp(c) == /\ c.op \in {"normalize", "cp_flip_sign", "cp_permute_factors", "pad_tt_rank", "cp_mode_dot", "tucker_mode_dot"}
             /\ ~(c.kind = "ttm" /\ Len(c.shape) = 2)                   \* a single core has nothing to compensate with
+OMixTwin(c) == [c EXCEPT !.omix = OMixNames[(((Checksum(c) \div Thin) \div 3 + SumSeq(c.rank)) % 3) + 1]]
 MagTwin(c) == [c EXCEPT !.mag = TMags[(((Checksum(c) \div Thin) \div 3 + Len(c.shape) + SumSeq(c.rank)) % 5) + 1]]
 TNext == "shape" \in DOMAIN cfg /\ "family" \notin DOMAIN cfg
          /\ LET base == {x \in TCfgs(cfg) : Kept(x) /\ InSvdDomain(x)} IN
             cfg' \in {TExpand(c) : c \in base}
                      \cup {TExpand(MagTwin(c)) : c \in {x \in base : MagOp(x) /\ (Checksum(x) \div Thin) % 3 = 0}}
+                     \cup {TExpand(OMixTwin(c)) : c \in {x \in base : x.op \in {"cp_mode_dot", "tucker_mode_dot"}
+                                                                       /\ (Checksum(x) \div Thin) % 3 # 0}}
 TSpec == TInit /\ [][TNext]_cfg
 TSpecOK == "family" \in DOMAIN cfg => TCfgOK(cfg)
 =============================================================================
